@@ -27,6 +27,7 @@ SUBS = {
     "c01": {"n": 2500}, "c02": {"n": 1200}, "c03": {"n": 1500}, "c04": {"n": 2500},
     "c05": {"n": 1200, "order": "server_first", "pair": 0}, "c06": {"n": 2500}, "c07": {"n": 1500},
     "c08": {"universes": 8, "searches": 32, "brackets": False}, "c11": {"universes": 8, "searches": 30},
+    "order": {},
 }
 
 
@@ -55,6 +56,7 @@ def run(snap, tier, seed, t0, replay):
                 params["keys"]["ext"] = ["format", "suffix"][(k // 2) % 2]
             if k % 4 == 1:
                 params["third_config"], params["third_config_own_mapping"] = True, True
+                params["derived_configs"] = True      # ... written the documented way, on top of the main configuration module
             if k % 4 == 3:
                 params["third_config"], params["third_config_narrow"] = True, True
             if k % 3 == 2:
@@ -82,9 +84,10 @@ def run(snap, tier, seed, t0, replay):
               "renamed leaf key configurations": (sum(1 for p in params_list if p["keys"]["ext"] != "ext"), 1),
               "non-idempotent mapping configurations": (sum(1 for p in params_list if p["mapping_style"] == "swap"), 1 if nconf >= 6 else 0),
               "configurations with non-ASCII key names": (sum(1 for p in params_list if not p["keys"]["sequence"].isascii()), 1 if nconf >= 6 else 0),
+              "configurations whose secondary path configurations derive from the main module": (sum(1 for p in params_list if p.get("derived_configs") and p.get("third_config_own_mapping")), 1 if nconf >= 6 else 0),
               "partial mapping table configurations": (sum(1 for p in params_list if p["mapping_style"] == "partial"), 1 if nconf >= 6 else 0)}
     for sub in SUBS:
-        floors["evaluations of %s" % sub] = (c.get("evals:" + sub, 0), nconf * 100)
+        floors["evaluations of %s" % sub] = (c.get("evals:" + sub, 0), nconf * (100 if sub != "order" else 2))
     return harness.finish("C20", tier, seed, LEVEL, m, RULE, t0, ASSUME, floors=floors,
                           extra_cov={"configurations": [{k: v for k, v in p.items() if k in ("keys", "bt_asset", "bt_shot", "sep", "mapping_style", "with_assettype", "with_step", "third_basetype", "third_config", "constants")} for p in params_list[:8]]})
 
@@ -139,10 +142,64 @@ def validate(params):
     return problems
 
 
+ORDER_CHILD = r"""
+import json, sys
+from spil import conf, Sid
+from spil.sid.pathops.pathconfig import get_path_config
+order = sys.argv[1].split(",")
+for c in order:
+    Sid(path="/nowhere", config=c)
+out = {}
+for c in sorted(conf.path_configs):
+    pc = get_path_config(c)
+    out[c] = sorted((k, v) for k, v in pc.path_templates.items())
+print("RESULT" + json.dumps(out))
+"""
+
+
+def order_sub(args):
+    """Fresh interpreters using the path configurations in different orders must end up with the same templates per configuration."""
+    import subprocess
+    import sys
+    from spil import conf
+    rec = Rec("C20")
+    names = list(conf.path_configs)
+    orders = [names, list(reversed(names))] + ([names[1:] + names[:1]] if len(names) > 2 else [])
+    seen = {}
+    for o in orders:
+        rec.ev()
+        p = subprocess.run([sys.executable, "-W", "ignore", "-c", ORDER_CHILD, ",".join(o)], stdout=subprocess.PIPE, stderr=subprocess.PIPE,
+                           timeout=300, env=dict(os.environ))
+        lines = [l for l in p.stdout.decode().splitlines() if l.startswith("RESULT")]
+        if not lines:
+            rec.inconclusive.append("order child failed: %s" % p.stderr.decode()[-300:])
+            continue
+        rec.count("orders_run")
+        seen[",".join(o)] = json.loads(lines[0][6:])
+    vals = list(seen.items())
+    for o, v in vals[1:]:
+        if v != vals[0][1]:
+            diff = [c for c in v if v[c] != vals[0][1].get(c)]
+            rec.violation("path_templates_depend_on_which_configuration_was_used_first", {"orders": [vals[0][0], o]},
+                          "configurations whose templates differ: %s; e.g. %r vs %r" % (
+                              diff, [t for t in v[diff[0]] if t not in vals[0][1][diff[0]]][:1], [t for t in vals[0][1][diff[0]] if t not in v[diff[0]]][:1]))
+    if len(seen) > 1:
+        rec.nt("orders:%d" % len(seen))
+    return rec.result()
+
+
 def worker(args):
     import importlib
     sub = args["sub"]
     params = args["params"]
+    if sub == "order":
+        res = order_sub(args)
+        for v in res.get("unlisted", []):
+            v["case"].update({"sub": "order", "conf_params": params})
+            v["kind"] = "order:" + v["kind"]
+        res["counters"] = dict({("order:%s" % k): v for k, v in res.get("counters", {}).items()}, sub_runs=1, validated=1)
+        res["counters"]["evals:order"] = res.get("evaluations", 0)
+        return res
     # the loaded (extrapolated) templates must be what the reference extrapolation of the package's raw templates gives
     try:
         import spil_sid_conf as raw
